@@ -182,8 +182,53 @@ def check_theorems(prop, module, names):
             axs = re.findall(r"^([A-Za-z_][\w.']*)\s*:", m.group(1) if m else "", re.M)
             badax = [a for a in axs if a not in AXIOM_ALLOW and a.split(".")[-1] not in AXIOM_ALLOW]
             report[n] = "axioms:" + ",".join(axs) if not badax else "FORBIDDEN-axioms:" + ",".join(badax)
+    # the statements are pinned: a property theorem whose statement no longer is the committed one
+    # is not the obligation any more (tools/pin_statements.py rewrites the pins, deliberately by hand)
+    pins = load_pins()
+    for n in names:
+        body = next((c for c in chunks if c.startswith(n)), None)
+        if body is None or not (report[n] == "closed" or report[n].startswith("axioms:")):
+            continue
+        stmt = statement_of(body)
+        if n not in pins:
+            report[n] = "not-pinned"
+        elif pins[n] != stmt:
+            report[n] = "statement-changed"
     discharged = sum(1 for v in report.values() if v == "closed" or v.startswith("axioms:"))
     return len(names), discharged, report
+
+
+def coqchk(prop):
+    """thorough tier: re-check the compiled property module and everything it depends on with the
+    independent checker; returns its context summary (axioms etc.)"""
+    p = sh(["timeout", "1500", "coqchk", "-silent", "-o", "-Q", COQ, "PV", "PV.Properties.%s" % prop], cwd=COQ)
+    out = p.stdout + p.stderr
+    if p.returncode != 0:
+        raise Failure("coqchk rejects Properties/%s.vo" % prop, out[-2000:])
+    summary = {}
+    for key in ("Axioms", "Constants/Inductives relying on type-in-type", "Constants/Inductives relying on unsafe (co)fixpoints",
+                "Inductives whose positivity is assumed"):
+        m = re.search(r"\* %s:\s*(.*?)\n\s*\n" % re.escape(key), out + "\n\n", re.S)
+        summary[key] = " ".join(m.group(1).split()) if m else "?"
+    bad = {k: v for k, v in summary.items() if v != "<none>"}
+    if bad:
+        raise Failure("coqchk reports assumptions for Properties/%s.vo: %s" % (prop, bad))
+    return summary
+
+
+PINS = os.path.join(VERIF, "coq", "pinned_statements.json")
+
+
+def statement_of(body):
+    """the statement printed by [Check name.] (everything before the Print Assumptions answer), whitespace-normalised"""
+    head = re.split(r"Closed under the global context|Axioms:", body)[0]
+    return " ".join(head.split())
+
+
+def load_pins():
+    if os.path.exists(PINS):
+        return json.load(open(PINS))
+    return {}
 
 
 def cases_v_crosscheck(cases, expected, label):
